@@ -150,6 +150,11 @@ impl W {
     }
 }
 
+/// LSP columns count UTF-16 code units
+fn u16len(s: &str) -> usize {
+    s.encode_utf16().count()
+}
+
 fn param_list(w_line_prefix: &str, names: &[String], leading_self: bool, defaults: &[String]) -> (String, Vec<(String, usize, usize)>) {
     // returns the text "(a, b)" positions relative to the whole line
     let mut s = String::from(w_line_prefix);
@@ -165,9 +170,9 @@ fn param_list(w_line_prefix: &str, names: &[String], leading_self: bool, default
             s.push_str(", ");
         }
         first = false;
-        let st = s.len();
+        let st = u16len(&s);
         s.push_str(n);
-        spans.push((n.clone(), st, s.len()));
+        spans.push((n.clone(), st, u16len(&s)));
     }
     for d in defaults {
         if !first {
@@ -419,11 +424,13 @@ pub struct GenOpts {
     pub multiline_per_mille: u32,
     /// fixture functions may be called test_<something> (test_client, test_db, ...)
     pub test_prefixed_fixtures: bool,
+    /// test functions may carry non-ASCII names (`def test_caf\u{e9}(fix)`): columns right of them differ in bytes and UTF-16 units
+    pub unicode_test_names_per_mille: u32,
 }
 
 impl Default for GenOpts {
     fn default() -> Self {
-        GenOpts { max_fixtures: 3, max_tests: 2, self_dep_per_mille: 150, dup_names: false, scopes: true, alias: true, in_class: true, marks: true, body_uses: true, assign_style: true, acyclic: false, multiline_per_mille: 120, test_prefixed_fixtures: true }
+        GenOpts { max_fixtures: 3, max_tests: 2, self_dep_per_mille: 150, dup_names: false, scopes: true, alias: true, in_class: true, marks: true, body_uses: true, assign_style: true, acyclic: false, multiline_per_mille: 120, test_prefixed_fixtures: true, unicode_test_names_per_mille: 0 }
     }
 }
 
@@ -494,7 +501,7 @@ pub fn gen_items(rng: &mut Rng, names: &[String], is_test_file: bool, o: &GenOpt
     let nt = if is_test_file { rng.range(1, o.max_tests.max(1)) } else { rng.below(2).min(o.max_tests) };
     for k in 0..nt {
         items.push(Item::Test(Tst {
-            name: format!("test_{}", k),
+            name: if rng.chance(o.unicode_test_names_per_mille) { format!("test_{}{}", rng.pick(&["caf\u{e9}", "\u{65e5}\u{672c}", "\u{43f}\u{440}\u{43e}\u{432}\u{435}\u{440}\u{43a}\u{430}"]), k) } else { format!("test_{}", k) },
             params: subset(rng, names, 3),
             usefixtures: if o.marks && rng.chance(200) { subset(rng, names, 2) } else { vec![] },
             indirect: if o.marks && rng.chance(100) { subset(rng, names, 1) } else { vec![] },
